@@ -294,6 +294,7 @@ public:
             for (size_t i = 1;; ++i) {
                 expected = get_body();
                 if (expected.get_locked()) {
+                    YAKUSHIMA_VERIF_POINT(SPIN_LOCK, this);
                     if (i >= 10) { break; }
                     _mm_pause();
                     continue;
@@ -303,6 +304,7 @@ public:
                 if (body_.compare_exchange_weak(expected, desired,
                                                 std::memory_order_acq_rel,
                                                 std::memory_order_acquire)) {
+                    YAKUSHIMA_VERIF_POINT(LOCK_ACQ, this);
                     return;
                 }
             }
@@ -311,6 +313,7 @@ public:
     }
 
     [[nodiscard]] node_version64_body get_body() const {
+        YAKUSHIMA_VERIF_POINT(ATOMIC, this);
         return body_.load(std::memory_order_acquire);
     }
 
@@ -335,6 +338,7 @@ public:
                 !sv.get_splitting()) {
                 return sv;
             }
+            YAKUSHIMA_VERIF_POINT(SPIN_STABLE, this);
             _mm_pause();
         }
     }
@@ -378,6 +382,7 @@ public:
             if (body_.compare_exchange_weak(expected, desired,
                                             std::memory_order_acq_rel,
                                             std::memory_order_acquire)) {
+                YAKUSHIMA_VERIF_POINT(LOCK_REL, this);
                 break;
             }
         }
